@@ -182,7 +182,15 @@ def extract_range(ctx, F):
             n = n[1] if (n[0] == 'field' and n[2] == '0') else n
             if not (n[0] == 'bin' and n[1].startswith('Sub') and n[2] == ('param', 'end') and n[3] == ('param', 'start')):
                 problems.append('the number of copied entries is not end - start')
-            skipped_ok = any(is_call(x, 'Iterator::skip') and x[2][0] == ('field', ('param', 'self'), 'operators') for x in walk(take[2][0]))
+            skips = [x for x in walk(take[2][0]) if is_call(x, 'Iterator::skip', 'Iterator::skip_while', 'Iterator::step_by', 'Iterator::filter')]
+            def skip_count_ok(x):
+                c_ = x[2][1]
+                c_ = c_[1] if (c_[0] == 'field' and c_[2] == '0') else c_
+                return c_ == ('const', 0) or c_ == ('param', 'start') or (is_call(c_, 'usize::checked_sub', 'usize::saturating_sub') and c_[2] == (('param', 'start'), ('const', 1))) or \
+                    (c_[0] == 'bin' and c_[1].startswith('Sub') and c_[2] == ('param', 'start') and c_[3] == ('const', 1))
+            # every skip starts at the queue itself (no skip stacked on another adaptor) and skips 0, start - 1 (then the entry before `start` is
+            # read with next()) or start entries
+            skipped_ok = bool(skips) and all(is_call(x, 'Iterator::skip') and x[2][0] == ('field', ('param', 'self'), 'operators') and skip_count_ok(x) for x in skips)
             if not skipped_ok:
                 # one iterator over self.operators, advanced past the prefix by `nth(start - 1)` (which also hands out the entry before
                 # `start`) when start > 0, and then taken from: the `take` must consume that same iterator object
